@@ -117,15 +117,31 @@ func (m *Model) PullPositions(ctx context.Context, ops ...resource.ReadOption) <
 		seenAll := false
 		var last *traits.OpenClosePositions
 
-		for change := range m.positions.Pull(ctx) {
+		changes := m.positions.Pull(ctx)
+		if len(m.positions.List()) == 0 {
+			// A collection without items sends no seed values, so there is no last seed value to wait for:
+			// the current value is "no positions".
+			seenAll = true
+			if !readRequest.UpdatesOnly {
+				last = &traits.OpenClosePositions{}
+				select {
+				case <-ctx.Done():
+					return
+				case send <- PullOpenClosePositionsChange{Positions: last, ChangeTime: m.positions.Clock().Now()}:
+				}
+			}
+		}
+
+		for change := range changes {
 			if change.NewValue == nil {
 				delete(all, change.Id)
 			} else {
 				all[change.Id] = change.NewValue.(*traits.OpenClosePosition)
 			}
 
-			shouldSend := seenAll || (change.LastSeedValue && !readRequest.UpdatesOnly)
-			if change.LastSeedValue {
+			// seed values are sent before anything else, so a change that is not a seed value is an update
+			shouldSend := seenAll || !change.SeedValue || (change.LastSeedValue && !readRequest.UpdatesOnly)
+			if change.LastSeedValue || !change.SeedValue {
 				seenAll = true
 			}
 			if !shouldSend {
